@@ -30,7 +30,9 @@ def build_impl(sc0, sid):
         idecl += ["}", ""]
     elif sc["ikind"] == "nonIface":
         idecl = ["// I is not an interface.", "type I struct{}", ""]
-    d = ["package d", "", "type N struct{}", "", "type AN = N", ""]
+    d = ["package d", "", "type N struct{}", "", "type AN = N", "",
+         "// Sealed can only be implemented by embedding a type of this package.", "type Sealed interface {", "\tseal()", "}", "",
+         "type Base struct{}", "", "func (Base) seal() {}", "", "type PBase struct{}", "", "func (*PBase) seal() {}", ""]
     bar = ["package bar", "", "type N struct{}", ""]
     if ipkg == "d":
         d += idecl
@@ -62,14 +64,22 @@ def build_impl(sc0, sid):
     u += ["type A = int", ""]
     if ipkg == "u":
         u += idecl
-    u += ["// T is the annotated type.", "// @implements %s%sI" % ("&" if sc["cptr"] else "", q)]
+    iface_name = "Sealed" if sc.get("sealed") else "I"
+    u += ["// T is the annotated type.", "// @implements %s%s%s" % ("&" if sc["cptr"] else "", q, iface_name)]
     line_of_T = None
     meth = []
     if sc["recv"] != "none":
         owner = "T" if sc["via"] == "direct" else "E"
         r = ("x *%s" if sc["recv"] == "pointer" else "x %s") % owner
         meth = ["func (%s) M(%s) %s {" % (r, param(sc["pT"], sc["vT"], "u"), render(sc["rT"], "u")), "\tvar z %s" % render(sc["rT"], "u"), "\treturn z", "}", ""]
-    if sc["via"] == "direct":
+    if sc.get("sealed"):
+        meth = []
+        base = "d.PBase" if sc["recv"] == "pointer" else "d.Base"
+        emb = {"foreignVal": base, "foreignPtr": "*" + base, "foreignIface": "d.Sealed"}[sc["via"]]
+        u.append("type T struct{ %s }" % emb)
+        line_of_T = len(u)
+        u.append("")
+    elif sc["via"] == "direct":
         u.append("type T struct{}")
         line_of_T = len(u)
         u.append("")
@@ -91,7 +101,7 @@ def build_impl(sc0, sid):
         if not any(pk["path"] == "m/e" for pk in pkgs):
             pkgs.append({"path": "m/e", "name": "e", "files": [{"name": "e/e.go", "src": "package e\n\ntype E struct{}\n"}]})
     pkgs.append({"path": "m/u", "name": "u", "files": ufiles})
-    prog = {"id": sid, "pkgs": pkgs, "query": {"pkg": "m/u", "type": "T", "ptr": sc["cptr"], "iface_pkg": ipath, "iface": "I"}}
+    prog = {"id": sid, "pkgs": pkgs, "query": {"pkg": "m/u", "type": "T", "ptr": sc["cptr"], "iface_pkg": ipath, "iface": iface_name}}
     expect = (sc0["code"], tuple(sorted(sc0["missing"])), line_of_T)
     return prog, expect
 
